@@ -59,7 +59,7 @@ class C12(Prop):
         "wq_no_lost_wakeup_reader", "wq_wake_delivers", "wq_no_overflow", "wq_run_reachable",
         "wq_reset_while_pending_loses_wakeup", "wq_unrepaired_remove_loses_block",
         "codec_unpack5_pack5", "codec_unpack2_pack2", "codec_unpack2_pack5", "codec_packet_count", "codec_eod_last",
-        "codec_unpack_chunk", "th_barrier", "th_counter", "th_no_lost_wakeup_master", "th_progress",
+        "codec_unpack_chunk", "codec_pack_in_place", "th_barrier", "th_counter", "th_no_lost_wakeup_master", "th_progress",
         "loader_nload_largest_prefix", "loader_chunks_partition", "pipe_order", "pipe_eof_after_all", "pipe_lanes", "pipe_no_deadlock", "pipe_buffers")]
     claimed = True
     level_text = ("Theorems for every schedule of one reader and any number of workers (one atomic step per mutex-protected region, spurious wake-ups allowed): "
@@ -72,7 +72,7 @@ class C12(Prop):
     level_note = ("Trusted: Lean kernel + propext/Classical.choice/Quot.sound; fidelity of the hand models is checked by differential run / trace validation, not proved; "
                   "pthread semantics and data-race freedom are assumed (atomic step per critical section); caller contract of the queue stated as `Admissible`. "
                   "Not theorems: no-lost-wake-up of the dsqdata pipeline (checked on every state of the observed traces only), the byte-level in-place "
-                  "packing/unpacking overlap (covered by ASan + tight-chunk content comparison), metadata parsing of unpack_chunk (differential only), esl_dsqdata_Open/Write file "
+                  "unpacking overlap inside smem (covered by ASan + tight-chunk content comparison; in-place PACKING is a theorem), metadata parsing of unpack_chunk (differential only), esl_dsqdata_Open/Write file "
                   "handling, the esl_workqueue_queuelock_* variants (unfinished code, not covered).")
     diverge_is_violation = True
     fault_is_output = True      # a sanitizer abort is an output line; it must coincide with the model's `fault`
